@@ -65,7 +65,7 @@ CLAIMED = {
    design="DESIGN.md section 4, C15"),
  "C16": dict(
    technique="property-based testing of generated multi-threaded programs (spawn, channels, blocking receives, joins in generated orders, global updates) with delivery and completion oracles; the OS owns the schedule",
-   text="Generated-input search: 300 (quick) programs with 1-8 native worker threads, a shared tick channel, one blocking channel per worker, 0-5 feed rounds, joins in spawn / reverse / looped / interleaved order, natural collections; checked: the program finishes (30 s, retried with 60 s; it needs well under a second), join results arrive exactly once with the worker's value, every sender's messages arrive exactly once and in order, workers' final state. JIT on/off.",
+   text="Generated-input search: 240 (quick) programs with 1-8 native worker threads, a shared tick channel, one blocking channel per worker, 0-5 feed rounds, joins in spawn / reverse / looped / interleaved order, natural collections; checked: the program finishes (30 s, retried with 60 s; it needs well under a second), join results arrive exactly once with the worker's value, every sender's messages arrive exactly once and in order, workers' final state. JIT on/off.",
    note="Trusted: the time limits as a deadlock detector (one retry). Weak for the same reason as C15: interleavings are sampled by the OS, not enumerated. Locks and higher-order blocking helpers beyond map / for-each are not generated. The worker-state and stale-handle symptoms of KF-C15-thread-roots-missed are tolerated here and reported by C15.",
    design="DESIGN.md section 4, C16"),
  "C02": dict(
